@@ -435,7 +435,9 @@ impl PushPromise {
             src.advance(1);
         }
 
-        if src.len() < 5 {
+        // The promised stream ID is mandatory; the header block fragment that
+        // follows it may be empty (and continue in CONTINUATION frames).
+        if src.len() < 4 {
             return Err(Error::MalformedMessage);
         }
 
